@@ -74,6 +74,14 @@ def sliceTo (t : Tup) (i : Int) : Tup := t.take i.toNat
 
 def len (t : Tup) : Int := t.length
 
+/-- `x in t` -/
+def mem (x : Int) (t : Tup) : Bool := t.contains x
+
+/-- `del t[i]` (negative indices as in Python; `IndexError` out of range) -/
+def delAt (t : Tup) (i : Int) : M Tup :=
+  let j := if i < 0 then i + t.length else i
+  if j < 0 ∨ j ≥ t.length then throw .indexError else pure (t.eraseIdx j.toNat)
+
 /-- `int.bit_length()` -/
 def bitLength (x : Int) : Int := Int.ofNat (Nat.log2 x.natAbs + (if x = 0 then 0 else 1))
 
